@@ -310,7 +310,7 @@ func rtOracle(r *rtRun, prop string) []string {
 		serialOf[in.ptr] = in.serial
 		cfgOfSerial[in.serial] = in.ptr
 	}
-	if (prop == "C08" || prop == "C07" || prop == "C05" || prop == "C06") && r.monBlockedAt != "" {
+	if (prop == "C08" || prop == "C07" || prop == "C05" || prop == "C06" || prop == "C09" || prop == "C04") && r.monBlockedAt != "" {
 		bad("the monitor goroutine was blocked outside its top-level select, after hook point %s: updates, Done, EnableVerification and blocking reports all wait for it", r.monBlockedAt)
 	}
 	if prop == "C08" && r.monAfterAllDone != "" {
@@ -395,6 +395,42 @@ func rtOracle(r *rtRun, prop string) []string {
 		for i, in := range r.installs {
 			if in.serial != uint64(i+1) {
 				bad("install #%d has serial %d (serials must count installs)", i+1, in.serial)
+			}
+		}
+		// a report is either taken (nil: the monitor has the value and will re-stack with it) or refused (an error: it
+		// never reaches the monitor) - a report that was refused with a context error must not be re-stacked anyway
+		{
+			type key struct{ src, v int }
+			taken, refused, got := map[key]int{}, map[key]int{}, map[key]int{}
+			for _, ret := range r.returns {
+				if ret.op.Kind == "report" && !ret.op.Blocking {
+					if ret.res == "nil" {
+						taken[key{ret.op.Src, ret.op.V}]++
+					} else {
+						refused[key{ret.op.Src, ret.op.V}]++
+					}
+				}
+			}
+			for _, u := range r.updates {
+				if !u.blocking {
+					got[key{u.src, u.v}]++
+				}
+			}
+			for k, n := range got {
+				if n > taken[k] && refused[k] > 0 && r.hang == "" {
+					// (pending reports that never returned are not in r.returns: only count what did return)
+					pending := 0
+					for _, cl := range r.clients {
+						cl.mu.Lock()
+						if (cl.status == "running" || cl.status == "returned") && cl.op.Kind == "report" && !cl.op.Blocking && cl.op.Src == k.src && cl.op.V == k.v {
+							pending++
+						}
+						cl.mu.Unlock()
+					}
+					if n > taken[k]+pending {
+						bad("ReportNewValue(src=%d, v=%d) returned an error %d time(s) and nil %d time(s), but the monitor received that value %d time(s): a report that was refused was re-stacked anyway", k.src, k.v, refused[k], taken[k], n)
+					}
+				}
 			}
 		}
 		last := map[int]uint64{}
